@@ -10,15 +10,18 @@ from harness.gen import sgdata as gen_sg
 from harness.gen import trigonal as gen_trig
 
 ID = "C13"
-LEAN_TARGETS = ["ChmpyVerif.Props.C13", "ChmpyVerif.Props.C14Groups"]
+LEAN_TARGETS = ["ChmpyVerif.Props.C13", "ChmpyVerif.Props.C13Frac", "ChmpyVerif.Props.C14Groups"]
 T = "ChmpyVerif.Props.C13."
 THEOREMS = [T + n for n in ("trig_T_inverse", "trigonal_ops_conjugate", "supercell_uses_vectors", "trigonal_roundtrip", "trigonal_coords_roundtrip",
-                            "supercell_index_unique", "supercell_same_crystal", "supercell_volume", "density_invariant")]
+                            "supercell_index_unique", "supercell_same_crystal", "supercell_volume", "density_invariant",
+                            # Props/C13Frac.lean
+                            "supercell_loop_shape", "scLoop_length", "scLoop_mem", "scLoop_nodup", "supercell_frac", "supercell_frac_in_cell",
+                            "supercell_frac_inj", "conj_mul", "conj_one", "conj_det", "conj_trace", "conj_roundtrip")]
 # which groups have both trigonal settings: read off the regenerated table (kernel-checked), not asked of the code under test
 THEOREMS += ["ChmpyVerif.Props.C14.both_settings_groups"]
 TRUSTED = [
     "translator harness/gen/trigonal.py (the two T literals of choose_trigonal_lattice, the `np.dot(T, direct)` cell construction, the diag(n)·direct "
-    "supercell construction) and the space-group table translator (C02)",
+    "supercell construction, the product(arange n1, arange n2, arange n3) x unit-cell-molecules loop translated by [q,r,s]·lattice) and the space-group table translator (C02)",
     "hand model Model/Reexpress.lean (change of basis of operations on exact rationals, row-vector convention); molecule unwrapping (C04) and unit-cell "
     "generation (C01) are used, not re-proved; floating point not modelled",
 ]
@@ -30,7 +33,8 @@ MANIFEST = {
              "tabulated hexagonal-axes operations re-expressed in the cell T·D are exactly the tabulated rhombohedral-axes operations (3 per operation); the "
              "supercell constructors scale the lattice vectors. General (any commutative ring): H->R->H restores cell and coordinates; with D' = diag(n)·D every "
              "lattice image x + k·D is a supercell atom x + q·D plus a supercell lattice vector, with (m,q) unique — the same infinite arrangement; the volume "
-             "scales by n1·n2·n3 and the density is unchanged. Tie: cell matrices by correspondence; whole crystals by a periodic-coincidence oracle."),
+             "scales by n1·n2·n3 and the density is unchanged. The supercell loop (shape read off the AST) visits exactly n1·n2·n3·N (offset, atom) pairs, each "
+             "once; the new fractional coordinates (f+q)/n lie in [0,1) and are injective in (q,f); re-expression T·R·T⁻¹ is a homomorphism keeping det and trace. Tie: cell matrices by correspondence; whole crystals by a periodic-coincidence oracle."),
     "note": "Trusted: Lean kernel + Mathlib; AST translators; hand model of the change of basis; C01/C04 machinery of the code itself; floats.",
     "technique": "Lean 4 proof (kernel check over regenerated matrices/tables + matrix algebra) + correspondence of cell matrices + periodic-coincidence oracle",
 }
